@@ -242,23 +242,42 @@ func settle() {
 }
 
 //go:noinline
-func fillWorld(w *ecs.World, hID, p1 ecs.ID, n int, base uint64) []ecs.Entity {
+func fillWorld(w *ecs.World, hID, p1 ecs.ID, n int, base uint64, extra ...ecs.ID) []ecs.Entity {
 	es := make([]ecs.Entity, n)
+	ids := append([]ecs.ID{hID, p1}, extra...)
 	for i := range es {
-		es[i] = w.NewEntity(hID, p1)
+		es[i] = w.NewEntity(ids...)
 		(*gcHolder)(w.Get(es[i], hID)).P = trackedPayload(base + uint64(i))
 	}
 	return es
 }
 
+type gcLabel struct{}
+type gcLabel2 struct{}
+
 func gcRetain() {
+	gcRetainShape("", false)
+	// tables whose first / last column is a zero-sized (label) component
+	gcRetainShape("label-first/", true)
+	fmt.Println("retain ok")
+}
+
+func gcRetainShape(prefix string, labels bool) {
 	w := ecs.NewWorld(ecs.NewConfig().WithCapacityIncrement(8))
+	extra := []ecs.ID{}
+	if labels {
+		extra = append(extra, ecs.ComponentID[gcLabel](&w))
+	}
 	hID := ecs.ComponentID[gcHolder](&w)
 	p1 := ecs.ComponentID[gcPlain1](&w)
+	if labels {
+		extra = append(extra, ecs.ComponentID[gcLabel2](&w))
+	}
 	const n = 200
 	step := func(name string, expectMin int64, f func(es []ecs.Entity)) {
+		name = prefix + name
 		finalized = 0
-		es := fillWorld(&w, hID, p1, n, 1000)
+		es := fillWorld(&w, hID, p1, n, 1000, extra...)
 		settle()
 		if finalized != 0 {
 			gcFail("retain/%s: %d payloads collected while their components still exist", name, finalized)
@@ -270,7 +289,7 @@ func gcRetain() {
 		}
 		// the survivors must still be intact
 		for i, e := range es {
-			if name == "reset" {
+			if name == prefix+"reset" {
 				break // handles of the previous epoch are meaningless after Reset
 			}
 			if w.Alive(e) && w.Has(e, hID) && (*gcHolder)(w.Get(e, hID)).P != nil {
@@ -322,7 +341,22 @@ func gcRetain() {
 			w.Set(es[i], hID, &gcHolder{P: nil})
 		}
 	})
-	fmt.Println("retain ok")
+	// single moves out of and back into a table: the vacated rows do not keep the referents,
+	// the re-used rows start zeroed
+	step("move-away", n, func(es []ecs.Entity) {
+		for _, e := range es {
+			w.Remove(e, p1)
+		}
+		for _, e := range es {
+			w.Remove(e, hID)
+		}
+		for _, e := range es {
+			w.Add(e, hID, p1)
+			if (*gcHolder)(w.Get(e, hID)).P != nil {
+				gcFail("retain/%smove-away: a component added to an entity is not zero (stale row contents)", prefix)
+			}
+		}
+	})
 }
 
 // ---- call-site shapes with non-escaping literals ----
